@@ -137,6 +137,29 @@ func genC09(g *Gen) {
 			}
 		}
 	}
+	// window sizes and run limits at the machine-word boundaries, on all-ones values, dense values and
+	// values whose windows have their top bit set
+	one := big.NewInt(1)
+	for _, K := range []uint{31, 32, 33, 63, 64, 65, 127, 128, 129} {
+		xs := []*big.Int{}
+		for _, n := range []uint{K - 1, K, K + 1, 2 * K, 2*K + 1, 3*K - 1, 200} {
+			xs = append(xs, new(big.Int).Sub(new(big.Int).Lsh(one, n), one))
+		}
+		for i := 0; i < g.pick(3, 12); i++ {
+			xs = append(xs, g.R.Bits(int(2*K)+g.R.Intn(200)))
+		}
+		xs = append(xs, structured(g, g.pick(3, 10), 600, K, K)...)
+		for _, x := range xs {
+			if x.Sign() <= 0 {
+				continue
+			}
+			for _, T := range []uint{0, 1, K - 1, K, K + 1, 2 * K} {
+				for _, m := range []string{"f", "s", "r", "h"} {
+					c09Case(g, m, x, K, T)
+				}
+			}
+		}
+	}
 	// structured big values with K, T up to 130
 	for i := 0; i < g.pick(300, 3000); i++ {
 		K := uint(1 + g.R.Intn(130))
